@@ -921,7 +921,7 @@ impl Check for C20Check {
         180
     }
     fn rule(&self) -> &'static str {
-        "case = N in 2..4 resource runtimes (same shared VAR_GLOBAL set; per resource: start gate or none, DebugControl+event channel or none, periodic retain save or none, optional division-by-zero fault at a chosen cycle) x seeded controller script over {advance clock, pause (with/without observing Paused), resume, barrier command, other commands, open gate, stop via handle/control, join, await-fault, progress probe, yield} x one shuttle schedule (uniform-random with stay bias, or PCT-like with depth/slice/horizon) from the case's scheduler seed; one case = one explored schedule; distinct non-trivial = distinct hash of the ordered observable event log (commands, observed states, counters) of runs in which at least two resources executed cycles"
+        "case = N in 2..4 resource runtimes (same shared VAR_GLOBAL set; per resource: start gate or none, DebugControl+event channel or none, periodic retain save or none, optional division-by-zero fault at a chosen cycle) x seeded controller script over {advance clock, pause (with/without observing Paused), resume, barrier command, other commands, open gate, stop via handle/control, join, await-fault, progress probe, yield} x one shuttle schedule (uniform-random with stay bias, or PCT-like with depth/slice/horizon) from the case's scheduler seed; one case = one explored schedule; round 3: free-running resources (interval 0) and, in one case in eight, a stepping mode in which every resource is stepped by a simulated thread of its own through tick_with_shared; distinct non-trivial = distinct hash of the ordered observable event log (commands, observed states, counters) of runs in which at least two resources executed cycles"
     }
     fn assumptions(&self) -> Vec<&'static str> {
         vec![
